@@ -351,7 +351,7 @@ def corpus():
 
 
 def check(run: Run, lean: dict) -> int:
-    n = 6000 if run.tier == "quick" else 150000
+    n = run.budget(6000, 150000)
     run.extra["rule"] = (
         "token soups from the XPath vocabulary, valid expressions, truncations / single- and multi-token mutations of them, "
         "nested and unbalanced brackets, unknown functions/axes/node tests, stray and non-ASCII characters; non-trivial = "
